@@ -214,7 +214,7 @@ def c11(prog, rep):
     DL.rule_fresh_position(prog, rep, ['src/containers/qlisttbl.c', 'src/containers/qlist.c'])
     from . import dimrules as DM
     DM.rule_dim1(prog, rep, C.C11_UNITS)
-    DM.rule_wid2(prog, rep, C.C11_UNITS)
+    DM.rule_wid2(prog, rep, [u_ for u_ in C.C11_UNITS if not u_.endswith('qhash.c')])     # hash arithmetic is compared as value graphs under C18
     rep.explanation = (
         'Structural memory-safety clauses over the 11 anchored units, all CFG paths: M1 every memcpy/strcpy/strncpy whose '
         'operands can share a base object (origins over reaching definitions) must be provably disjoint (affine distance = '
@@ -480,6 +480,7 @@ def c18(prog, rep):
     from . import dimrules as DM
     DM.rule_dim1(prog, rep, ['src/utilities/qhash.c'])
     DM.rule_wid1(prog, rep, ['src/utilities/qhash.c', 'src/internal/md5/md5c.c'])
+    H.rule_chunk_pointer_advances(prog, rep)
     rep.explanation = (
         'Agreement with the published algorithms as value graphs, decided on the AST without computing any hash: each function is '
         'turned by forward substitution (helpers inlined, const locals substituted, rotates recognised, commutative operands '
@@ -505,6 +506,9 @@ def c20(prog, rep):
     CR.rule_number_classifier_closed(prog, rep)
     CR.rule_expansion_untouched(prog, rep)
     CR.rule_every_word_stored(prog, rep)
+    from . import bitlaws as BL
+    for _u in ('src/extensions/qaconf.c', 'src/extensions/qconfig.c'):
+        BL.rule_codec_purity(prog, rep, rid='B11', unit=_u, what='configuration parsers')
     rep.explanation = (
         'Narrow structural clauses of the Apache-style parser (qaconf.c): B1 the literal set the boolean classifier compares against '
         '(case-insensitively) contains all eight documented spellings and maps the two polarities and "not a boolean" to three '
@@ -586,6 +590,7 @@ def c02(prog, rep):
     res = T.rule_t3(prog, rep)
     T.rule_a4(prog, rep, res, rid='T3-root')
     T.rule_fixup_bypass(prog, rep, rid='T9')
+    T.rule_t6(prog, rep)
     rep.explanation = (
         'Structural necessary conditions of "stays a valid left-leaning red-black tree", not validity of every reachable tree: ROT '
         'the three restructuring primitives (rotate_left, rotate_right, flip_color), evaluated symbolically as straight-line heap '
@@ -631,6 +636,8 @@ def c06(prog, rep):
     HA.rule_i10(prog, rep)
     HA.rule_i11(prog, rep)
     HA.rule_i12(prog, rep)
+    from . import dimrules as DM
+    DM.rule_wid3(prog, rep, ['src/containers/qhasharr.c'])
     rep.explanation = (
         'Structural clauses of "exact bounded map with exact space accounting" in qhasharr.c; the map behaviour over histories, the '
         'fit boundary and the placement branch taken depend on the runtime occupancy pattern and are not decided. K1: every chunk-loop '
@@ -711,6 +718,7 @@ def c19(prog, rep):
     BW.rule_valist_once(prog, rep, ['src/utilities/qstring.c'])
     SR.rule_overwrite_step(prog, rep, ['src/utilities/qstring.c'])
     SR.rule_no_store_before_move(prog, rep)
+    SR.rule_failure_untouched(prog, rep, ['src/utilities/qstring.c'])
     rep.explanation = (
         'Q1: for the size-parameterised routines of qstring.c (qstrcpy, qstrncpy, qstrgets - found by their `char *dst, size_t size` '
         'signature) every write into the destination is bounded: block copies and indexed stores need the must-fact len < size '
